@@ -126,6 +126,43 @@ fn seq_spec(ctx: &Ctx, w: i64) -> SeqSpec {
     }
 }
 
+/// The time-to-live moves of put_or_update (a TTL added to / removed from / renewed on an existing key, which re-derive
+/// the key's weight as +-24 bytes of expiry-index entry) over keys that are live, expired but not yet swept, or swept.
+fn ttl_moves_spec(ctx: &Ctx) -> SeqSpec {
+    let quick = ctx.quick();
+    let alphabet = vec![
+        Op::Put { k: 1, w: Some(30), ttl_ms: Some(2000) },
+        Op::Put { k: 1, w: Some(25), ttl_ms: Some(2000) },
+        Op::Put { k: 2, w: Some(30), ttl_ms: None },
+        Op::Upsert { k: 1, value: false, w: None, ttl_ms: None, remove_ttl: true },
+        Op::Upsert { k: 1, value: false, w: None, ttl_ms: Some(2000), remove_ttl: false },
+        Op::Upsert { k: 2, value: false, w: None, ttl_ms: Some(2000), remove_ttl: false },
+        Op::Upsert { k: 2, value: false, w: None, ttl_ms: None, remove_ttl: true },
+        Op::Delete { k: 1 },
+        Op::Advance { ms: 3000 },
+        Op::TickWait,
+        Op::TotalWeight,
+    ];
+    SeqSpec {
+        name: "seq/weight-bound/ttl-moves/W=60".into(),
+        setup: Setup { weight: 60, buffer: 2, weight_fn: WeightFn::Const { c: 30, ttl_extra: 24 }, ..Setup::default() },
+        world: Default::default(),
+        prefix: vec![],
+        alphabet,
+        depth: if quick { 5 } else { 7 },
+        allow: Some(Arc::new(|_h, present, a| match a {
+            Op::Upsert { k, value: false, .. } => present.contains(k),
+            _ => true,
+        })),
+        oracle: seq_oracle(),
+        keys: vec![1, 2],
+        canon_sketch: true,
+        ghost_key: None,
+        max_states: 3_000_000,
+        time_cap_s: if quick { 10.0 } else { 500.0 },
+    }
+}
+
 // ---------------------------------------------------------------------------------------------- ilv
 fn ilv_oracle() -> Oracle {
     Arc::new(|run: &Run, out: &mut Vec<crate::harness::ilv::Finding>| {
@@ -183,6 +220,7 @@ pub fn def(ctx: &Ctx) -> PropertyDef {
         let name = seq_spec(ctx, w).name;
         scenarios.push(seq_scenario(move |c| seq_spec(c, w), &name));
     }
+    scenarios.push(seq_scenario(ttl_moves_spec, "seq/weight-bound/ttl-moves/W=60"));
     let quick = ctx.quick();
     let workers = ctx.workers;
     for p in crate::harness::ilv::for_tier(ilv_programs(), quick) {
